@@ -12,7 +12,7 @@ whenever the printed value is a datum of that format).
 `showHexD`), so that model results can be compared verbatim with harness output.
 NaN is printed `nan` whatever its sign: harnesses must print NaN sign-stripped.
 -/
-namespace Cnl.Drv
+namespace Cnl.FloatIO
 open Cnl
 
 def hexDigit? (c : Char) : Option Nat :=
@@ -50,6 +50,9 @@ def parseHexF (s : String) : Option FVal :=
     match r with
     | p :: r =>
       if p != 'p' && p != 'P' then none else
+      let r := match r with
+        | '+' :: r' => r'
+        | _ => r
       match (String.ofList r).toInt? with
       | some e => some (.fin neg m (e - 4 * (nf : Int)))
       | none => none
@@ -116,4 +119,4 @@ def parseFmt : String → Option Fmt
 /-- print a value of format `f` as the harness prints it (`%a` for float/double, `%La` for long double) -/
 def showF (f : Fmt) (x : FVal) : String := if f.prec = 64 then showHexL x else showHexD x
 
-end Cnl.Drv
+end Cnl.FloatIO
